@@ -610,6 +610,72 @@ func (g *Graph) EdgeDisjuncts(e *GEdge) []Fact {
 	return out
 }
 
+// EdgeClauses returns the condition under which edge e is taken in conjunctive normal form: every clause holds on
+// the edge, a clause is a disjunction of atoms. EdgeFacts are its unit clauses, EdgeDisjuncts its only clause when
+// there is exactly one. Boolean locals that name a stable condition are expanded, locals defined just before the
+// test are substituted. nil for unconditional / opaque edges or when the form would exceed 32 clauses.
+func (g *Graph) EdgeClauses(e *GEdge) [][]Fact {
+	if e.Cond == nil {
+		return nil
+	}
+	if e.Tag != nil {
+		return [][]Fact{{{X: e.Tag, Y: e.Cond, Pos: e.Taken}}}
+	}
+	defs := g.adjacentDefs(e.From)
+	tooBig := false
+	var cnf func(x ast.Expr, want bool) [][]Fact
+	cnf = func(x ast.Expr, want bool) [][]Fact {
+		x = ast.Unparen(x)
+		switch t := x.(type) {
+		case *ast.UnaryExpr:
+			if t.Op == token.NOT {
+				return cnf(t.X, !want)
+			}
+		case *ast.BinaryExpr:
+			if (t.Op == token.LAND && want) || (t.Op == token.LOR && !want) {
+				return append(cnf(t.X, want), cnf(t.Y, want)...)
+			}
+			if (t.Op == token.LOR && want) || (t.Op == token.LAND && !want) {
+				a, b := cnf(t.X, want), cnf(t.Y, want)
+				if len(a)*len(b) > 32 {
+					tooBig = true
+					return nil
+				}
+				var out [][]Fact
+				for _, ca := range a {
+					for _, cb := range b {
+						cl := append(append([]Fact{}, ca...), cb...)
+						out = append(out, cl)
+					}
+				}
+				return out
+			}
+		case *ast.Ident:
+			if def := g.condAlias(t); def != nil {
+				return cnf(def, want)
+			}
+			if len(defs) > 0 {
+				if o := g.Info.Uses[t]; o != nil {
+					if r, ok := defs[o]; ok {
+						if b, isB := o.Type().Underlying().(*types.Basic); isB && b.Kind() == types.Bool {
+							return cnf(r, want)
+						}
+					}
+				}
+			}
+		}
+		if len(defs) > 0 {
+			x = substIdents(g.Info, x, defs)
+		}
+		return [][]Fact{{{X: x, Pos: want}}}
+	}
+	out := cnf(e.Cond, e.Taken)
+	if tooBig {
+		return nil
+	}
+	return out
+}
+
 // adjacentDefs returns the locals defined by the statements that immediately precede the test node n
 // (`x := E` / `if x := E; cond(x)`), with their defining expressions: between such a definition and the test nothing
 // else runs, so a fact about x is a fact about E. Only variables assigned exactly once are taken; the walk stops at
